@@ -40,6 +40,7 @@ type c02Epochs struct {
 	next          int            // model: next unused outbound number
 	saved         map[int][]byte // model: bytes saved in the current epoch
 	lastFirst     int            // highest first-time number transmitted in the current epoch
+	rehanded      bool           // an operator moved the counter back in this epoch: numbers are handed out a second time
 	log           []string
 	feat          map[string]bool
 	appFlag       bool // the application sets 141=Y on the next outgoing Logon
@@ -93,7 +94,7 @@ func (e *c02Epochs) open() {
 // wholeEpoch: every number handed out in the current epoch still answers with the bytes saved
 // under it (later saves, refreshes and restarts do not disturb earlier messages).
 func (e *c02Epochs) wholeEpoch(when string) {
-	if !e.persist || len(e.saved) == 0 {
+	if !e.persist || len(e.saved) == 0 || e.rehanded {
 		return
 	}
 	got, err := e.r.Store().GetMessages(1, e.next-1)
@@ -126,7 +127,7 @@ func (e *c02Epochs) after(st rig.StepResult, what string) {
 			if e.next > 1 {
 				e.feat["reset-at-non-initial-number"] = true
 			}
-			e.next, e.saved, e.lastFirst = 1, map[int][]byte{}, 0
+			e.next, e.saved, e.lastFirst, e.rehanded = 1, map[int][]byte{}, 0, false
 			sentThisEpoch = nil
 			e.logf("  store reset")
 		case "store.SetNextSender":
@@ -192,6 +193,11 @@ func (e *c02Epochs) after(st rig.StepResult, what string) {
 	}
 	// the store itself answers with the transmitted bytes
 	for _, en := range sentThisEpoch {
+		if e.rehanded {
+			// what a store answers for a number used twice without a reset in between is nobody's
+			// promise (the stores differ); the counter clauses above stay judged
+			break
+		}
 		got, err := e.r.Store().GetMessages(en.Seq, en.Seq)
 		if err != nil || len(got) != 1 || !bytes.Equal(got[0], en.Raw) {
 			vk.Violation(e.t, e.c, "C02/sent-bytes-not-retrievable/"+e.storeKind, "after %s the store returns %d messages (err %v) for number %d, transmitted %s\n%s", what, len(got), err, en.Seq, vk.Show(en.Raw), e.history())
@@ -344,6 +350,33 @@ func c02EpochsProperty(t *rapid.T) {
 			}
 			e.logf("disconnect")
 			e.after(e.r.Disconnect(), "disconnect")
+		},
+		"operator-moves-the-counter": func(t *rapid.T) {
+			// quickfix.SetNextSenderMsgSeqNum while the session is down: the numbers from n on are handed
+			// out again from n (what was saved above n-1 is superseded), and everything that reads the
+			// counter later - the next Logon, a refresh, a restart - continues from there
+			if e.r.V.IsConnected() {
+				return
+			}
+			n := rapid.IntRange(1, e.next+2).Draw(t, "n")
+			e.logf("operator sets the next outbound number to %d (was %d)", n, e.next)
+			e.feat["operator-moved-the-counter"] = true
+			if n < e.next {
+				e.feat["operator-moved-the-counter-back"] = true
+				e.rehanded = true
+			}
+			e.after(e.r.Operator(func(st quickfix.MessageStore) { _ = st.SetNextSenderMsgSeqNum(n) }), "operator sets the counter")
+			for k := range e.saved {
+				if k >= n {
+					delete(e.saved, k)
+				}
+			}
+			if e.lastFirst >= n {
+				e.lastFirst = n - 1
+			}
+			if e.r.S() != n {
+				vk.Violation(t, c, "C02/next-number-not-one-past-highest", "the operator set the next number to %d, the store says %d\n%s", n, e.r.S(), e.history())
+			}
 		},
 		"restart": func(t *rapid.T) {
 			if e.storeKind != "file" {
